@@ -10,6 +10,7 @@ import warnings
 
 REPO = os.environ.get("VERIF_REPO", "/repo")
 VERIF = os.path.dirname(os.path.dirname(os.path.abspath(__file__)))
+OUT = os.environ.get("VERIF_OUT", VERIF)  # where evidence/ and replays/ are written (mutation runs redirect it)
 GUARD = "FLOWPATHS_VERIF"
 
 _bound = False
